@@ -9,10 +9,14 @@
 namespace crashnote {
 inline std::string &current() { static std::string *s = new std::string(); return *s; }
 inline std::string &report() { static std::string *s = new std::string(); return *s; }
-inline void on_report(const char *r) { if (report().empty() && r) { report() = r; if (report().size() > 700) report().resize(700); } }
+inline void on_report(const char *r) {
+    if (!report().empty() || !r) return;
+    std::string t = r; size_t p = t.find("ERROR:");
+    report() = t.substr(p == std::string::npos ? 0 : p, 700);
+}
 inline void on_death() {
     if (current().empty()) return;
-    vf::record_failure(current(), "the process died inside the code under test while executing this case: " + report());
+    vf::record_failure(current(), "the process died inside the code under test while executing this case: " + (report().empty() ? std::string("(undefined-behaviour / abort report is in the worker log)") : report()));
     vf::dump();
 }
 inline void install() { __asan_set_error_report_callback(on_report); __sanitizer_set_death_callback(on_death); }
